@@ -1,5 +1,5 @@
 """C20 - Floating-IP configuration and IP ranges decode, validate and round-trip."""
-import json
+import json, re
 import vf
 from vf import cN, cZ, cbool, cstr, clist, copt, cpair
 
@@ -36,6 +36,11 @@ KEY_ORDER = ["nodeSubnets", "ips", "subnet", "gateway", "vlan"]
 
 class O(list):
     """a JSON object as an ordered list of (key, value) pairs (duplicates allowed)"""
+
+
+def ip2n(s):
+    a, b, c, d = (int(x) for x in s.split("."))
+    return (a << 24) | (b << 16) | (c << 8) | d
 
 
 def ip2s(n):
@@ -395,6 +400,14 @@ def run(ctx):
             corr.append("(chk_range %s %s %s)" % (cstr(s), ob, cstr(o.get("str", ""))))
             idx_corr.append(i)
             if o["some"]:
+                # monitor: an accepted range string is "<ip>" or "<ip>~<ip>" - anything else is rejected - and names its own bounds
+                parts = s.split("~")
+                plain = [p_ for p_ in parts if re.fullmatch(r"\d{1,3}(\.\d{1,3}){3}", p_) and all(int(x) < 256 and (x == "0" or not x.startswith("0")) for x in p_.split("."))]
+                wrong_bounds = len(parts) in (1, 2) and len(plain) == len(parts) and \
+                    (ip2n(parts[0]) != o["first"] or ip2n(parts[-1]) != o["last"])
+                if len(parts) > 2 or any(p_ == "" for p_ in parts) or wrong_bounds:
+                    ctx.violation("monitor", "ParseIPRange ACCEPTED %r as %s: not a range string (anything else is rejected) or other bounds "
+                                  "than it names" % (s, o.get("str")), {"case": c, "obs": o}, found=True, theorem="range_roundtrip")
                 # monitor: print/parse round trip observed on the implementation itself
                 if not o.get("rt", False) or o["first"] > o["last"]:
                     ctx.violation("monitor", "range does not round-trip or is reversed on the implementation",
